@@ -430,6 +430,25 @@ func runSeq(p *core.Program, r *core.Report, queue bool) {
 		c.ob("CM1", p.FuncName(fSize), "Size is len(items)", c.fpos(fSize), got == "len("+recv(fSize)+".items)", fmt.Sprintf("Size returns %q, expected the number of held elements", got))
 		writers := map[string]bool{add: true, rem: true, "Clear": queue, "New": true}
 		for _, f := range all1 {
+			// the backing slice handed to another function (gogu.Reverse(q.items), sort...)
+			for _, in := range path.Instrs(f) {
+				call, ok := in.(ssa.CallInstruction)
+				if !ok {
+					continue
+				}
+				if _, isB := call.Common().Value.(*ssa.Builtin); isB {
+					continue
+				}
+				for _, a := range call.Common().Args {
+					v := a
+					if slc, ok := v.(*ssa.Slice); ok {
+						v = slc.X
+					}
+					if isLoadOfField(v, sl, "items") {
+						c.ob("AG1", p.FuncName(f), "hands items to another function", p.InstrPos(in), false, "the backing slice is passed to "+call.Common().Value.Name()+": the callee can reorder or overwrite the held elements")
+					}
+				}
+			}
 			for _, in := range path.Instrs(f) {
 				st, ok := in.(*ssa.Store)
 				if !ok {
@@ -639,10 +658,12 @@ func runSeq(p *core.Program, r *core.Report, queue bool) {
 			addf(f)
 			for _, g := range fs {
 				for name, calls := range listCalls(g) {
-					if !mutating[name] {
-						continue
-					}
 					for _, call := range calls {
+						// by name for the known mutators, by effect for everything else
+						// (DList.Each rewrites the head while it iterates)
+						if cal := path.StaticCallee(call); !mutating[name] && (cal == nil || listWrites(p, cal) == 0) {
+							continue
+						}
 						c.ob("AG1", p.FuncName(f), "changes the list", p.InstrPos(call), false, "the list is changed (DList."+name+") by a function other than the insertion, the removal and Clear: the order of delivery the rules establish no longer holds")
 					}
 				}
@@ -663,29 +684,7 @@ func runSeq(p *core.Program, r *core.Report, queue bool) {
 			c.ob("PV5", p.FuncName(pr.fn), "position, not value", c.fpos(pr.fn), ok, "a positional list operation compares element values (in "+where+"): with duplicate elements it acts on the wrong node")
 		}
 		if pr.ro {
-			w := 0
-			for f := range reaches(pr.fn) {
-				if !p.InModule(f) {
-					continue
-				}
-				for _, in := range path.Instrs(f) {
-					if st, ok := in.(*ssa.Store); ok {
-						if fa, ok := st.Addr.(*ssa.FieldAddr); ok {
-							if n := namedOf(fa.X.Type()); n != nil && (n.Obj().Name() == "DList" || n.Obj().Name() == "DoubleNode") {
-								w++
-							}
-						}
-						if _, ok := st.Addr.(*ssa.FieldAddr); !ok {
-							if al, isLocal := st.Addr.(*ssa.Alloc); isLocal && !al.Heap {
-								continue // by-value copy into a local
-							}
-							if n := namedOf(st.Addr.Type()); n != nil && (n.Obj().Name() == "DList" || n.Obj().Name() == "DoubleNode") {
-								w++
-							}
-						}
-					}
-				}
-			}
+			w := listWrites(p, pr.fn)
 			c.ob("EF1", p.FuncName(pr.fn), "observer writes nothing", c.fpos(pr.fn), w == 0, "a read-only list operation stores into list nodes: Peek/Search would change the container")
 		}
 	}
@@ -781,4 +780,33 @@ func onlyViaLoopHeader(fn *ssa.Function, b *ssa.BasicBlock) bool {
 		}
 	}
 	return true
+}
+
+// listWrites counts the stores into DList / DoubleNode storage (not into by-value
+// local copies) that fn can perform, directly or through in-module callees.
+func listWrites(p *core.Program, fn *ssa.Function) int {
+	w := 0
+	for f := range reaches(fn) {
+		if !p.InModule(f) {
+			continue
+		}
+		for _, in := range path.Instrs(f) {
+			if st, ok := in.(*ssa.Store); ok {
+				if fa, ok := st.Addr.(*ssa.FieldAddr); ok {
+					if n := namedOf(fa.X.Type()); n != nil && (n.Obj().Name() == "DList" || n.Obj().Name() == "DoubleNode") {
+						w++
+					}
+				}
+				if _, ok := st.Addr.(*ssa.FieldAddr); !ok {
+					if al, isLocal := st.Addr.(*ssa.Alloc); isLocal && !al.Heap {
+						continue // by-value copy into a local
+					}
+					if n := namedOf(st.Addr.Type()); n != nil && (n.Obj().Name() == "DList" || n.Obj().Name() == "DoubleNode") {
+						w++
+					}
+				}
+			}
+		}
+	}
+	return w
 }
